@@ -149,7 +149,9 @@ def c07_case():
         'primal output, cotangent/tangent of every selected collection and '
         'every input equal jax.vjp/jvp/grad of the pure apply function, '
         'unselected collections are absent, forward state updates are '
-        'published exactly once; non-trivial = >=2 collections with different '
+        'published exactly once; a program using nn.vjp differentiates (jax.'
+        'grad w.r.t. every float collection) like the same program written '
+        'with jax.vjp; non-trivial = >=2 collections with different '
         'selection status, or pytree primals, or has_aux')
 def autodiff_vs_jax(case, ctx):
   prog, D = case['prog'], case['dim']
@@ -234,6 +236,36 @@ def autodiff_vs_jax(case, ctx):
     for i, (g, gr) in enumerate(zip(res['in_grads'], g_ref[1:])):
       require(same_struct(g, gr) and close(g, gr), lambda: f'cotangent of '
               f'input {i} differs from jax.vjp')
+    if not mutable and odt == 'float32':
+      # the program that *uses* nn.vjp is itself differentiable like the
+      # pure formulation: d/d(all float variables) of sum(primal) +
+      # sum(cotangents), selected collections or not
+      fcols = [c for c in cv if c != 'counters']
+      def total(tree):
+        return sum(jnp.sum(l) for l in jax.tree_util.tree_leaves(tree)
+                   if jnp.issubdtype(jnp.asarray(l).dtype, jnp.floating))
+      def s_lifted(fv):
+        full = dict({c: {'child': cv[c]} for c in cv if c not in fv},
+                    **{c: {'child': fv[c]} for c in fv})
+        r_ = outer.apply(full, prims, ct, None)
+        return total((r_['y'], r_['var_grads'], r_['in_grads']))
+      def s_pure(fv):
+        full = dict({c: cv[c] for c in cv if c not in fv}, **fv)
+        def f_(vs, *ps):
+          allv = dict({c: full[c] for c in full if c not in vs}, **vs)
+          return child.apply(allv, combine(ps)).astype(odt)
+        y_, bwd_ = jax.vjp(f_, {c: full[c] for c in sel}, *prims)
+        return total((y_, bwd_(ct)))
+      fv0 = {c: cv[c] for c in fcols}
+      if fv0:
+        with sut('jax.grad through a program using nn.vjp'):
+          g2 = jax.grad(s_lifted)(fv0)
+        g2_ref = jax.grad(s_pure)(fv0)
+        require(same_struct(g2, g2_ref) and close(g2, g2_ref), lambda: 
+                'jax.grad of a program that uses nn.vjp(vjp_variables='
+                f'{sorted(sel)}) w.r.t. collections {sorted(fv0)} differs '
+                'from jax.grad of the same program written with jax.vjp')
+        ctx.note(labels=['second-order'])
   elif mode == 'jvp':
     vt_ref = {c: vtan[c] for c in sel}
     out_p, out_t = jax.jvp(lambda vs, *ps: run_pure(vs, *ps)[0],
